@@ -109,6 +109,19 @@ def sequences(max_len):
         for seq in itertools.product(ALPHABET, repeat=n):
             if legal(seq) and any(x in ("S", "SA", "Q", "V", "U") for x in seq):
                 out.append(seq)
+    # directed longer sequences: open levels, assert inside, close some, assert / query again, solve
+    if max_len < 5:
+        seen = set(out)
+        for a_ in ("P", "P2", "P0"):
+            for b_ in ("A", "Q", "U"):
+                for c_ in ("O", "O2", "O0", "R"):
+                    for d_ in ("B", "Q", "V"):
+                        seq = (a_, b_, c_, d_, "S")
+                        if legal(seq) and seq not in seen:
+                            out.append(seq)
+                        seq = ("A", a_, b_, c_, d_)
+                        if legal(seq) and seq not in seen and any(x in ("S", "SA", "Q", "V", "U") for x in seq):
+                            out.append(seq)
     return out
 
 
@@ -499,6 +512,18 @@ def t_sequences(max_len):
         for seq in itertools.product(T_ALPHABET, repeat=n):
             if t_legal(seq) and any(x in ("S", "Q") for x in seq):
                 out.append(seq)
+    if max_len < 5:
+        # directed longer sequences: declarations made inside levels that are partly closed, then used again
+        seen = set(out)
+        for a_ in ("P", "P2", "P0"):
+            for b_ in ("AX", "AY", "AU", "Q"):
+                for c_ in ("O", "O2", "O0", "R"):
+                    for d_ in ("AX", "AY", "AU", "Q"):
+                        for tail in (("S",), ("S", "M")):
+                            seq = (a_, b_, c_, d_) + tail
+                            if t_legal(seq) and seq not in seen:
+                                out.append(seq)
+                                seen.add(seq)
     return out
 
 
@@ -1261,6 +1286,8 @@ def _opt_job(job):
         gm = w.repo.modules[OPT_GOALS]
         Max = it.module_global(gm, "MaximizationGoal")
         Min = it.module_global(gm, "MinimizationGoal")
+        MinMax = it.module_global(gm, "MinMaxGoal")
+        MaxMin = it.module_global(gm, "MaxMinGoal")
         MaxSMT = it.module_global(gm, "MaxSMTGoal")
         x, y = w.symbol("x", INT), w.symbol("y", INT)
         u, v = w.symbol("u", B3), w.symbol("v", B3)
@@ -1279,7 +1306,8 @@ def _opt_job(job):
             asserts = box(x, 0, 3) + box(y, 0, 3) + [w.app("LE", w.app("Plus", x, y), I(4)), w.app("Not", w.app("Equals", x, y))]
             doms = {x: range(-1, 5), y: range(-1, 5)}
             goals = [("max x", Max, [x]), ("max y", Max, [y]), ("min x+y", Min, [w.app("Plus", x, y)]),
-                     ("max 2x+y", Max, [w.app("Plus", w.app("Times", I(2), x), y)])]
+                     ("max 2x+y", Max, [w.app("Plus", w.app("Times", I(2), x), y)]),
+                     ("minmax x,y", MinMax, [[x, y]]), ("maxmin x,y", MaxMin, [[x, y]])]
         elif scen == "int-unsat":
             asserts = box(x, 0, 3) + [w.app("LT", x, I(0))]
             doms = {x: range(-2, 5)}
@@ -1289,7 +1317,8 @@ def _opt_job(job):
             asserts = [w.app("BVULE", u, w.bv_const(6, 3)), w.app("Not", w.app("Equals", u, w.bv_const(3, 3))),
                        w.app("Equals", v, w.app("BVAdd", u, w.bv_const(1, 3)))]
             doms = {u: range(8), v: range(8)}
-            goals = [("max u", Max, [u, sg]), ("min u", Min, [u, sg]), ("max v", Max, [v, sg]), ("min v", Min, [v, sg])]
+            goals = [("max u", Max, [u, sg]), ("min u", Min, [u, sg]), ("max v", Max, [v, sg]), ("min v", Min, [v, sg]),
+                     ("minmax u,v", MinMax, [[u, v], sg]), ("maxmin u,v", MaxMin, [[u, v], sg])]
         elif scen == "bv-signed-front":
             # u + v = 0 over 3 signed bits (u != -4): no point dominates another, negative values on the front
             asserts = [w.app("Equals", w.app("BVAdd", u, v), w.bv_const(0, 3)), w.app("Not", w.app("Equals", u, w.bv_const(4, 3)))]
@@ -1355,6 +1384,9 @@ def _opt_job(job):
             return s_
 
         def objective_value(term, asg, signed=False):
+            if isinstance(term, tuple):
+                vals = [objective_value(t_, asg, signed) for t_ in term[1]]
+                return max(vals) if term[0] == "minmax" else min(vals)
             val = sc.nodeval(w, term, asg)
             so = w.nsort(term)
             if so[0] == "BV" and signed:
@@ -1363,7 +1395,7 @@ def _opt_job(job):
 
         def cost_val(node, term, signed):
             val = sc.nodeval(w, node, {})
-            so = w.nsort(term)
+            so = w.nsort(term[1][0] if isinstance(term, tuple) else term)
             if so[0] == "BV" and signed:
                 return refsem.to_signed(val, so[1])
             return val
@@ -1404,15 +1436,18 @@ def _opt_job(job):
             return results
         goal_objs = []
         for name, ctor, args in goals:
-            term = args[0]
             signed = bool(args[1]) if len(args) > 1 else False
             g = it.call(ctor, args)
+            term = args[0]
+            if isinstance(term, list):
+                # min-max / max-min: the objective is the reference max (min) of the terms
+                term = ("minmax" if ctor is MinMax else "maxmin", term)
             if sat_all:
                 vals = [objective_value(term, asg, signed) for _, asg in sat_all]
-                best = max(vals) if ctor is Max else min(vals)
+                best = max(vals) if ctor in (Max, MaxMin) else min(vals)
             else:
                 best = None
-            goal_objs.append((name, g, term, signed, best, ctor is Max))
+            goal_objs.append((name, g, term, signed, best, ctor in (Max, MaxMin)))
         # single-objective
         for name, g, term, signed, best, is_max in goal_objs:
             for strategy in ("linear", "binary"):
@@ -1429,10 +1464,7 @@ def _opt_job(job):
                         results.append((label, "bad", "reports no solution, the assertions are satisfiable"))
                         continue
                     model, cost = r
-                    cval = sc.nodeval(w, cost, {})
-                    so = w.nsort(term)
-                    if so[0] == "BV" and signed:
-                        cval = refsem.to_signed(cval, so[1])
+                    cval = cost_val(cost, term, signed)
                     masg = dict(("sym:" + w.npayload(k_)[0], sc.nodeval(w, v_, {})) for k_, v_ in model.attrs["assignment"].items())
                     okm = all(sc.nodeval(w, g_, masg) for g_ in asserts) and objective_value(term, masg, signed) == cval
                     if cval != best:
